@@ -48,6 +48,10 @@ impl Ctx {
     }
 }
 
+/// Bumped on every evaluation; a watchdog thread in the binary uses it to
+/// tell a stalled (possibly non-terminating) shard from a slow one.
+pub static PROGRESS: std::sync::atomic::AtomicU64 = std::sync::atomic::AtomicU64::new(0);
+
 const MAX_DISTINCT: usize = 3_000_000;
 const MAX_SAMPLES: usize = 6;
 const MAX_VIOLATIONS: usize = 12;
@@ -95,11 +99,13 @@ impl Report {
     #[inline]
     pub fn eval(&mut self) {
         self.evaluations += 1;
+        PROGRESS.fetch_add(1, std::sync::atomic::Ordering::Relaxed);
     }
 
     #[inline]
     pub fn evals(&mut self, n: u64) {
         self.evaluations += n;
+        PROGRESS.fetch_add(n.max(1), std::sync::atomic::Ordering::Relaxed);
     }
 
     /// Record a distinct non-trivial case by hash.
